@@ -448,6 +448,17 @@ class Sym:
     def __divmod__(self, k):
         return self // k, self % k
 
+    def __int__(self):
+        """int(x) / assignment into a native integer array: truncation toward zero
+        for a real-sorted value (the C cast), the value itself for an integer-sorted one."""
+        c = self.const_value()
+        if c is not None:
+            return int(c)
+        ctx = _ctx()
+        if self.is_int_sorted():
+            return ctx.concretize_int(self)
+        return ctx.concretize_int(ctx.trunc(self))
+
     def __index__(self):
         c = self.const_value()
         if c is not None:
